@@ -356,6 +356,10 @@ int __wrap_epoll_ctl(int epfd, int op, int fd, struct epoll_event *ev)
 		ep->ents[i].events = ev->events;
 		ep->ents[i].data = ev->data.u64;
 		ep->ents[i].enabled = 1;
+		/* scenario option `Xkickyield`: a second yield point AFTER the kick has taken effect (the woken loop can run
+		   its whole event pass before the poster executes its next statement, as on a real multiprocessor) */
+		if (vk_yield_hook != NULL && vk_yield_after_kick && ev != NULL && (ev->events & EPOLLONESHOT))
+			vk_yield_hook();
 		return 0;
 	case EPOLL_CTL_DEL:
 		if (i == ep->n) {
@@ -377,6 +381,7 @@ static int cmp_ent(const void *a, const void *b)
 
 void (*vk_block_hook)(int (*ready)(void *), void *ctx, long long deadline);
 void (*vk_yield_hook)(void);
+int vk_yield_after_kick;
 
 static uint32_t ep_ready_bits(const struct vk_ent *e);
 
